@@ -51,6 +51,12 @@ func (client *webAgentClient) shutdown() {
 }
 
 func (client *webAgentClient) handleReceiver() {
+	// After giving up, e.g., due to a broken connection, the receiver channel is still read until it gets closed. A
+	// MuxAgent holds its lock while it hands a message over; it could never unregister a client which stopped reading.
+	defer func() {
+		for range client.receiver {
+		}
+	}()
 	defer client.shutdown()
 
 	var logger = log.WithField("web agent client", client.conn.RemoteAddr().String())
